@@ -26,6 +26,7 @@ def gen_case(rng):
             s["comps"].append(("sparql", [SG.gen_sparql_constraint(rng, is_prop) for _ in range(rng.randint(1, 2))]))
         if r > 0.4:
             cc = SG.gen_custom(rng, i, iri_nodes + lits + [Literal("x")])
+            cc["on_prop"] = is_prop
             if cc["kind"] == "select" and cc.get("needs_prop") and not is_prop:
                 cc["query"], cc["needs_prop"] = SG.CSELECTS[1]
             s["comps"].append(("custom", cc))
